@@ -168,8 +168,9 @@ class Blake2(Blake):
             try: #forsee last block:
                 nextblk = next(g)
             except StopIteration:
-                # set f0 finalization flag (blk is last)
-                self.f[0]= -1
+                # set f0 finalization flag (blk is last, unless more
+                # pieces follow this update):
+                if padding: self.f[0]= -1
                 nextblk = None
             # input words are now in little-endian:
             yield Bits(blk,bitorder=1).split(self.wsize)
